@@ -76,6 +76,39 @@ def appearancesJustified (s : State) (op : Op) (s' : State) : Bool :=
 def expiredGone (t : Nat) (s' : State) : Bool :=
   s'.recs.all (fun r => match r.exp with | some e => decide (t ≤ e) | none => true)
 
+/-- The stored expiration of `r` has passed when a block begins at `t`. -/
+def isExpired (t : Nat) (r : Attribute) : Bool :=
+  match r.exp with
+  | some e => decide (e < t)
+  | none => false
+
+/-- Number of stored attributes whose stored expiration is before `t`. -/
+def expiredCount (s : State) (t : Nat) : Nat := (s.recs.filter (isExpired t)).length
+
+/-- Clause 3 in the presence of the sweep's per-block cap (`limit`, 0 = none), on an observed
+sweep at time `t` from `s` to `s'`:
+* `ok` — nothing expired is left;
+* `capped` — something expired is left, but more than `limit` attributes were expired when the
+  block began and at least `limit` of them are gone: all the CODE promises above its cap
+  (theorem `capped_sweep_removes_min`); the property's "gone after the next block begins" is
+  not met;
+* `short` — expired attributes are left although the cap was not reached. -/
+inductive SweepResult
+  | ok | capped | short
+  deriving DecidableEq, Repr
+
+def sweepResult (limit : Nat) (s : State) (t : Nat) (s' : State) : SweepResult :=
+  if expiredGone t s' then .ok
+  else if limit ≠ 0 ∧ limit < expiredCount s t ∧ expiredCount s' t + limit ≤ expiredCount s t then .capped
+  else .short
+
+/-- The `i`-th of infinitely many different non-empty values (`v`, `vv`, `vvv`, …). -/
+def nthValue (i : Nat) : String := String.ofList (List.replicate (i + 1) 'v')
+
+/-- `n` add messages by `signer` that differ only in the value, all with expiration `exp`. -/
+def manyAdds (signer addr name : String) (exp n : Nat) : List Op :=
+  (List.range n).map fun i => .add signer ⟨addr, name, nthValue i, .string, some exp⟩
+
 /-- No stale queue entries: every queue entry is the stored expiration of a stored attribute. -/
 def noStale (s : State) : Bool :=
   s.queue.all (fun q => s.recs.any (fun r => decide (r.key = q.2) && decide (r.exp = some q.1)))
@@ -98,8 +131,9 @@ def noOverwriteRun : State → List Op → Bool
 
 /-- The checker: the conclusions of the theorems evaluated on an observed transition.
 `accepted` = the implementation returned no error. Clause names are what
-`known_findings.json` matches on. -/
-def verdict (s : State) (op : Op) (accepted : Bool) (s' : State) : String :=
+`known_findings.json` matches on.  `cap` is the per-block cap of the sweep that produced the
+transition (`verdict`: the chain's `attribute.MaxExpiredAttributionCount`). -/
+def verdictCap (cap : Nat) (s : State) (op : Op) (accepted : Bool) (s' : State) : String :=
   if !accepted then "ok"
   else if !writerIsOwner s op then "fail:write_by_non_owner"
   else if !lookupComplete s' then "fail:lookup_omits_holder"
@@ -115,7 +149,25 @@ def verdict (s : State) (op : Op) (accepted : Bool) (s' : State) : String :=
       | _ => "fail:disappears:not_deleted_by_owner"
     | none =>
       match op with
-      | .beginBlock t => if expiredGone t s' then "ok" else "fail:expired_survives_begin_block"
+      | .beginBlock t =>
+        match sweepResult cap s t s' with
+        | .ok => "ok"
+        | .capped => "fail:expired_survives_begin_block:more_expired_than_the_sweep_cap"
+        | .short => "fail:expired_survives_begin_block"
       | _ => "ok"
+
+def verdict (s : State) (op : Op) (accepted : Bool) (s' : State) : String :=
+  verdictCap maxExpiredAttributionCount s op accepted s'
+
+/-- The checker on a transaction of several `MsgAddAttribute` messages by one signer (op line
+`bulk`): the same clauses, judged on the states before and after the whole transaction. -/
+def verdictBulk (s : State) (signer : String) (attrs : List Attribute) (accepted : Bool) (s' : State) : String :=
+  if !accepted then "ok"
+  else if !attrs.all (fun a => resolvesTo s a.name signer) then "fail:write_by_non_owner"
+  else if !lookupComplete s' then "fail:lookup_omits_holder"
+  else if !s'.recs.all (fun r' => s.recs.contains r' || attrs.contains r') then
+    "fail:record_written_without_owner_message"
+  else if !s.recs.all (fun r => hasKey s' r.key) then "fail:disappears:not_deleted_by_owner"
+  else "ok"
 
 end PvModel.Attr
